@@ -50,14 +50,17 @@ func (p *Parser) ParsePackages(ctx context.Context, packageNames []string) ([]*c
 		pkgLog := log.With().Str("package", pkg.PkgPath).Logger()
 		pkgCtx := pkgLog.WithContext(ctx)
 
-		if len(pkg.GoFiles) == 0 {
-			continue
-		}
+		// Report load errors first: a configured package that does not exist
+		// (or cannot be listed) has no Go files either and must not be
+		// skipped silently.
 		for _, err := range pkg.Errors {
 			log.Err(err).Msg("encountered error when loading package")
 		}
 		if len(pkg.Errors) != 0 {
 			return nil, errors.New("error occurred when loading packages")
+		}
+		if len(pkg.GoFiles) == 0 {
+			continue
 		}
 		for fileIdx, file := range pkg.GoFiles {
 			fileLog := pkgLog.With().Str("file", file).Logger()
